@@ -148,6 +148,44 @@ def closure_underscore_edits(sf, lo, hi, ed, log, where, protected=()):
                 n += 1
 
 
+def auto_array_let_edits(sf, lo, hi, ed, log, where, protected=()):
+    """R2 (automatic): `let [a, b, ..] = e;` (irrefutable array pattern of plain identifiers) becomes
+    `let __aN = e; let a = __aN[0]; let b = __aN[1]; ..`"""
+    toks = sf.toks
+    n = 0
+    i = lo
+    while i < hi - 4:
+        if toks[i].text == 'let' and toks[i + 1].text == '[' and not any(a <= i < b for a, b in protected):
+            e = match_close(toks, i + 1)
+            names = []
+            ok = True
+            k = i + 2
+            while k < e:
+                if toks[k].kind == 'ident' and toks[k].text not in ('mut', 'ref'):
+                    names.append(toks[k].text)
+                elif toks[k].text != ',':
+                    ok = False
+                k += 1
+            if ok and names and toks[e + 1].text == '=':
+                # statement end
+                j = e + 2
+                while j < hi:
+                    t = toks[j]
+                    if t.kind == 'punct':
+                        if t.text == ';':
+                            break
+                        if t.text in OPEN:
+                            j = match_close(toks, j)
+                    j += 1
+                tmp = '__a%d' % n
+                n += 1
+                ed.add(toks[i + 1].start, toks[e].end, tmp)
+                ed.add(toks[j].end, toks[j].end, ' ' + ' '.join('let %s = %s[%d];' % (nm, tmp, ix) for ix, nm in enumerate(names)))
+                log.rw('R2', where, sf.text[toks[i].start:toks[e].end], 'let %s = ..; let %s = %s[i];' % (tmp, '/'.join(names), tmp))
+                i = j
+        i += 1
+
+
 def loop_sites(sf, lo, hi):
     """Token indices of the body `{` of each loop (while / for / loop) in [lo,hi), in source order."""
     toks = sf.toks
@@ -243,15 +281,21 @@ def weave_fn(sf, it, spec, log, where, canary=False):
         every = len(rw) > 3 and rw[3] == 'all'
         pat = [t.text for t in lex(before)]
         hits = _find_seq(toks, it.kw, it.hi, pat)
-        if (len(hits) != 1 and not every) or not hits:
+        if not hits:
+            # the text this rewrite was written for is gone (the code changed): do not rewrite, let Verus judge the new text
+            if not canary:
+                log.rw(rule + '-skipped', where, before, '(anchor absent in current source: rewrite not applied)')
+            continue
+        if len(hits) != 1 and not every:
             raise Undecided('%s: rewrite %s anchor %r matched %d times' % (where, rule, before, len(hits)))
         for h in hits:
             ed.add(toks[h].start, toks[h + len(pat) - 1].end, after)
             protected.append((h, h + len(pat)))
         if not canary:
             log.rw(rule, where, before + (' (x%d)' % len(hits) if every else ''), after)
-    closure_underscore_edits(sf, it.body_lo, it.body_hi, ed, log, where, protected)
     if spec is None:
+        closure_underscore_edits(sf, it.body_lo, it.body_hi, ed, log, where, protected)
+        auto_array_let_edits(sf, it.body_lo, it.body_hi, ed, log, where, protected)
         return ed.render()
     # R10: alpha-renaming of a parameter (Verus rejects a contract on `fn f(.., f: T)`)
     for old_name, new_name in (spec.params or {}).items():
@@ -319,14 +363,31 @@ def weave_fn(sf, it, spec, log, where, canary=False):
                 ed.add(toks[k].end, toks[k].end, ' ' + ls['iter_name'] + ':')
     elif spec.mode == 'verify' and not spec.no_unwind:
         pass
-    # closures
+    # closures: key = ordinal (int) or an anchor token sequence (str): the first closure after the anchor
     if spec.closures and spec.mode == 'verify':
         sites = closure_sites(sf, it.body_lo + 1, it.body_hi)
-        for ordinal, cs in spec.closures.items():
-            if ordinal >= len(sites):
-                raise Undecided('%s: closure #%d not found (%d closures)' % (where, ordinal, len(sites)))
-            bo, bc = sites[ordinal]
-            # body must be a block `{` for clauses; the closure keeps its text, we add `-> (r: T)` only if given
+        for key, cs in spec.closures.items():
+            if isinstance(key, int):
+                if key >= len(sites):
+                    raise Undecided('%s: closure #%d not found (%d closures)' % (where, key, len(sites)))
+                bo, bc = sites[key]
+            else:
+                pat = [t.text for t in lex(key)]
+                hits = _find_seq(toks, it.body_lo, it.body_hi + 1, pat)
+                if len(hits) != 1:
+                    raise Undecided('%s: closure anchor %r matched %d times' % (where, key, len(hits)))
+                after = [x for x in sites if x[0] >= hits[0] + len(pat)]
+                if not after:
+                    raise Undecided('%s: no closure after anchor %r' % (where, key))
+                bo, bc = after[0]
+            if any(a0 <= bo < b0 for a0, b0 in protected):
+                continue
+            if cs.get('params') is not None:
+                if bo == bc:   # `||`
+                    ed.add(toks[bo].start, toks[bo].end, '|' + cs['params'] + '|')
+                else:
+                    ed.add(toks[bo].end, toks[bc].start, cs['params'])
+                protected.append((bo, bc + 1))
             txt = ''
             if cs.get('ret'):
                 txt += ' -> (' + cs['ret'] + ')'
@@ -335,9 +396,28 @@ def weave_fn(sf, it, spec, log, where, canary=False):
             if cs.get('ensures'):
                 txt += ' ensures ' + cs['ensures'].strip().rstrip(',') + ','
             nxt = toks[bc + 1]
-            if nxt.text != '{':
-                raise Undecided('%s: closure #%d body is not a block; cannot weave clauses' % (where, ordinal))
-            ed.add(nxt.start, nxt.start, txt + ' ')
+            pre = cs.get('body_prefix', '')
+            if nxt.text == '{':
+                ed.add(nxt.start, nxt.start, txt + ' ')
+                if pre:
+                    ed.add(nxt.end, nxt.end, ' ' + pre + ' ')
+            else:
+                # expression body: wrap in a block (R9); the body ends at the first `,` `)` `;` `]` `}` on depth 0
+                j = bc + 1
+                while j < it.body_hi:
+                    t = toks[j]
+                    if t.kind == 'punct':
+                        if t.text in (',', ')', ';', ']', '}'):
+                            break
+                        if t.text in OPEN:
+                            j = match_close(toks, j)
+                    j += 1
+                ed.add(nxt.start, nxt.start, txt + ' { ' + (pre + ' ' if pre else ''))
+                ed.add(toks[j - 1].end, toks[j - 1].end, ' }')
+                if not canary:
+                    log.rw('R9', where, 'closure body `%s`' % sf.text[nxt.start:toks[j - 1].end][:80], 'wrapped in a block to carry its contract')
+    closure_underscore_edits(sf, it.body_lo, it.body_hi, ed, log, where, protected)
+    auto_array_let_edits(sf, it.body_lo, it.body_hi, ed, log, where, protected)
     # hints
     if spec.mode == 'verify':
         for anchor, pos, text in spec.hints:
